@@ -9,6 +9,11 @@ from .common import Replayer, absorb, Machinery
 def run_config(chk, module, cfg, overrides, make_case, worker_module, worker_fn, sample_every=997,
                sample_fn=None, simulate=None, depth=None, expect_all_states=True, label=None, workers=16,
                timeout=4 * 3600, flush_cases=None):
+    if getattr(chk, "hung", False):
+        # a library call that never returned has already decided this run (VIOLATED); every further configuration would
+        # only wait for the same alarm again
+        chk.observe("configurations_not_run_after_a_hang", 1)
+        return None
     rp = Replayer(worker_module, worker_fn)
     ov = dict(overrides or {})
     ov["GenPrint"] = "TRUE"
